@@ -105,10 +105,25 @@ func ltWriteErr(kind string) error {
 	return nil // "inj", "full": a private error value
 }
 
+var errLtPanic = errors.New("panic inside Encode")
+
 func ltDB(laps, pad int) *laptimer.DB {
 	db := laptimer.NewDB()
 	for i := 0; i < laps; i++ {
-		db.Laps = append(db.Laps, laptimer.Lap{ID: i, Track: strings.Repeat("x", pad), Note: "line1\nline2"})
+		lap := laptimer.Lap{ID: i, Track: strings.Repeat("x", pad), Note: "line1\nline2"}
+		// laps of several shapes: manually timed ones without fixes and with no distance, laps with
+		// tags (the last of them empty: what `--tags ""` and an empty <tags/> element give), laps with fixes
+		switch i % 5 {
+		case 1:
+			lap.Tags = laptimer.Tags{"Me", ""}
+		case 2:
+			lap.Recording.Fixes = []laptimer.Fix{{ID: 1}, {ID: 2}}
+			lap.OverallDistance = 75
+		case 3:
+			lap.Tags = laptimer.Tags{""}
+			lap.OverallDistance = 1200
+		}
+		db.Laps = append(db.Laps, lap)
 	}
 	return db
 }
@@ -152,11 +167,20 @@ func ltRun(toks []string) string {
 	ref := &faultWriter{k: -1}
 	refDone := make(chan error, 1)
 	go func() {
+		// (a crash inside Encode is an answer — "panic" — not the end of the run)
+		defer func() {
+			if recover() != nil {
+				refDone <- errLtPanic
+			}
+		}()
 		enc, _ := laptimer.NewEncoder(ref, opts...)
 		refDone <- enc.Encode(db)
 	}()
 	select {
 	case err := <-refDone:
+		if err == errLtPanic {
+			return "panic"
+		}
 		if err != nil && !mf {
 			return fmt.Sprintf("bad reference run: %v", err)
 		}
@@ -198,6 +222,11 @@ func ltRun(toks []string) string {
 	fw := &faultWriter{k: k, yield: yield, slow: slow, err: werr, full: cvField(toks, "ek") == "full"}
 	done := make(chan error, 1)
 	go func() {
+		defer func() {
+			if recover() != nil {
+				done <- errLtPanic
+			}
+		}()
 		e, _ := laptimer.NewEncoder(fw, opts...)
 		err := e.Encode(db)
 		fw.returned.Store(true)
@@ -206,6 +235,9 @@ func ltRun(toks []string) string {
 	var err error
 	select {
 	case err = <-done:
+		if err == errLtPanic {
+			return "panic"
+		}
 	case <-time.After(ltWait(slow)):
 		ltHangs++
 		return "hang"
